@@ -17,6 +17,7 @@
 mod options;
 mod progress;
 
+use std::collections::HashSet;
 use std::path::PathBuf;
 use std::{result, thread};
 use std::sync::Arc;
@@ -112,6 +113,7 @@ fn main() -> Result<()> {
     }
 
     // Sanity-check all sources up-front
+    let mut targets = HashSet::new();
     for source in &sources {
         info!("Copying source {:?} to {:?}", source, dest);
         if !source.exists() {
@@ -138,6 +140,13 @@ fn main() -> Result<()> {
 
         if source == &target_base {
             return Err(XcpError::InvalidSource("Source is same as destination").into());
+        }
+
+        // Two sources with the same name would be written to the
+        // same place concurrently; like cp, refuse rather than
+        // produce a mix of the two.
+        if !targets.insert(target_base) {
+            return Err(XcpError::InvalidSource("Multiple sources map to the same destination.").into());
         }
     }
 
